@@ -14,6 +14,7 @@ use vstd::std_specs::cmp::OrdSpec;
 //@map /let (mut )?commit_log_opt = self\.commit_log\.lock\(\)\.vx_expect\(\);/ => 
 //@map /(?<![\w.])commit_log_opt\./ => self.commit_log.val.
 //@map /\bSignerId\b/ => [u8; 16]
+//@map /: &str = / => : &'static str = 
 verus! {
 
 pub enum Error { VersionMismatch, Other }
@@ -23,13 +24,15 @@ pub struct KVV(pub String, pub (u64, Vec<u8>));
 // the local store behind the cloud store: any KVVStore, specified by the contracts proved for MemoryKVVStore
 pub trait KVVStore: Sized {
     spec fn kvv_view(&self) -> StoreView;
-    fn get(&mut self, key: &str) -> (r: Result<Option<(u64, Vec<u8>)>, Error>)
-        ensures final(self).kvv_view() == old(self).kvv_view(),
-            r.is_ok() ==> (match r->Ok_0 { Some(vv) => old(self).kvv_view().dom().contains(key@) && vv.0 == old(self).kvv_view()[key@].0
-                && vv.1@ == old(self).kvv_view()[key@].1@, None => !old(self).kvv_view().dom().contains(key@) });
-    fn get_version(&mut self, key: &str) -> (r: Result<Option<u64>, Error>)
-        ensures final(self).kvv_view() == old(self).kvv_view(),
-            r.is_ok() ==> r->Ok_0 == (if old(self).kvv_view().dom().contains(key@) { Some(old(self).kvv_view()[key@].0) } else { None });
+    fn get(&self, key: &str) -> (r: Result<Option<(u64, Vec<u8>)>, Error>)
+        ensures
+            r.is_ok() ==> (match r->Ok_0 { Some(vv) => self.kvv_view().dom().contains(key@) && vv.0 == self.kvv_view()[key@].0
+                && vv.1@ == self.kvv_view()[key@].1@, None => !self.kvv_view().dom().contains(key@) });
+    fn get_version(&self, key: &str) -> (r: Result<Option<u64>, Error>)
+        ensures
+            r.is_ok() ==> r->Ok_0 == (if self.kvv_view().dom().contains(key@) { Some(self.kvv_view()[key@].0) } else { None });
+    spec fn signer_id_spec(&self) -> [u8; 16];
+    fn signer_id(&self) -> (r: [u8; 16]) ensures r == self.signer_id_spec();
     fn put_batch(&mut self, kvvs: Vec<KVV>) -> (r: Result<(), Error>)
         ensures
             r.is_ok() ==> final(self).kvv_view() == batch_applied(old(self).kvv_view(), kvvs@, kvvs@.len() as int),
@@ -55,6 +58,32 @@ pub open spec fn kvvs_of(es: Seq<(String, (u64, Vec<u8>))>) -> Seq<KVV> { es.map
 
 //@type vls-persist/src/kvv/cloud.rs :: CloudKVVStore
 
+//@const vls-persist/src/kvv/cloud.rs :: LAST_WRITER_KEY vis=pub
+pub struct Mutations(pub Vec<(String, (u64, Vec<u8>))>);
+impl Mutations {
+    pub fn new() -> (r: Self) ensures r.0@.len() == 0 { Mutations(Vec::new()) }
+    pub fn from_vec(mutations: Vec<(String, (u64, Vec<u8>))>) -> (r: Self) ensures r.0 == mutations { Mutations(mutations) }
+}
+// `commit_log_opt.as_ref().expect("not in transaction")`
+#[verifier::external_body]
+pub fn vx_log_ref(o: &Option<VxStrMap>) -> (r: &VxStrMap) requires o.is_some() ensures *r == o->Some_0 { o.as_ref().unwrap() }
+// `commit_log.iter().map(|(k, (v, vv))| (k.clone(), (*v, vv.clone()))).collect()`: a copy of every entry, in key order
+#[verifier::external_body]
+pub fn vx_log_cloned(m: &VxStrMap) -> (r: Vec<(String, (u64, Vec<u8>))>)
+    ensures entries_like(m@, r@), r@.len() == m@.dom().len(), m@.dom().finite()
+{ unimplemented!() }
+#[verifier::external_body]
+pub fn vx_str_eq(a: &str, b: &str) -> (r: bool) ensures r == (a@ == b@) { a == b }
+#[verifier::external_body]
+pub fn vx_id_to_vec(id: [u8; 16]) -> (r: Vec<u8>) ensures r@ == id@ { id.to_vec() }
+// `es` lists exactly the entries of m, each key once, with equal version and equal bytes
+pub open spec fn entries_like(m: StoreView, es: Seq<(String, (u64, Vec<u8>))>) -> bool {
+    (forall|i: int| 0 <= i < es.len() ==> m.dom().contains((#[trigger] es[i]).0@) && m[es[i].0@].0 == es[i].1.0 && m[es[i].0@].1@ == es[i].1.1@)
+    && (forall|k: Seq<char>| m.dom().contains(k) ==> exists|i: int| 0 <= i < es.len() && (#[trigger] es[i]).0@ == k)
+    && (forall|i: int, j: int| 0 <= i < j < es.len() ==> (#[trigger] es[i]).0@ != (#[trigger] es[j]).0@)
+}
+pub open spec fn mutations_reported(r: Mutations, m: StoreView) -> bool { entries_like(m, r.0@) }
+
 pub open spec fn next_local_version(m: StoreView, k: Seq<char>) -> u64 { if m.dom().contains(k) { (m[k].0 + 1) as u64 } else { 0 } }
 pub open spec fn log_view<L: KVVStore>(c: CloudKVVStore<L>) -> Option<StoreView> {
     match c.commit_log.val { Some(m) => Some(m@), None => None }
@@ -63,11 +92,9 @@ pub open spec fn log_view<L: KVVStore>(c: CloudKVVStore<L>) -> Option<StoreView>
 impl<L: KVVStore> CloudKVVStore<L> {
 
 //@fn vls-persist/src/kvv/cloud.rs :: impl<L: KVVStore> CloudKVVStore<L> :: do_get_version props=C16
-//@sigsub /&self/ => &mut self
     ensures
-        final(self).local.kvv_view() == old(self).local.kvv_view(), final(self).commit_log == old(self).commit_log,
         r.is_ok() ==> r->Ok_0 == (if commit_log@.dom().contains(key@) { Some(commit_log@[key@].0) }
-            else if old(self).local.kvv_view().dom().contains(key@) { Some(old(self).local.kvv_view()[key@].0) } else { None }),   //[C16.cloud.version-reads-own-writes]
+            else if self.local.kvv_view().dom().contains(key@) { Some(self.local.kvv_view()[key@].0) } else { None }),   //[C16.cloud.version-reads-own-writes]
 //@end
 
 //@fn vls-persist/src/kvv/cloud.rs :: impl<L: KVVStore> KVVStore for CloudKVVStore<L> :: put_with_version props=C16,C10
@@ -108,15 +135,13 @@ impl<L: KVVStore> CloudKVVStore<L> {
 //@end
 
 //@fn vls-persist/src/kvv/cloud.rs :: impl<L: KVVStore> CloudKVVStore<L> :: do_get props=C16
-//@sigsub /&self/ => &mut self
     ensures
-        final(self).local.kvv_view() == old(self).local.kvv_view(), final(self).commit_log == old(self).commit_log,
         // a transaction reads its own writes by key, otherwise what the local store holds
         r.is_ok() ==> (match r->Ok_0 {
             Some(vv) => (if commit_log@.dom().contains(key@) { vv.0 == commit_log@[key@].0 && vv.1@ == commit_log@[key@].1@ }
-                else { old(self).local.kvv_view().dom().contains(key@) && vv.0 == old(self).local.kvv_view()[key@].0
-                    && vv.1@ == old(self).local.kvv_view()[key@].1@ }),
-            None => !commit_log@.dom().contains(key@) && !old(self).local.kvv_view().dom().contains(key@) }),             //[C16.cloud.reads-own-writes]
+                else { self.local.kvv_view().dom().contains(key@) && vv.0 == self.local.kvv_view()[key@].0
+                    && vv.1@ == self.local.kvv_view()[key@].1@ }),
+            None => !commit_log@.dom().contains(key@) && !self.local.kvv_view().dom().contains(key@) }),             //[C16.cloud.reads-own-writes]
 //@sub /Ok\(Some\(\(\*v, vv\.clone\(\)\)\)\)/ => Ok(Some((*v, vx_clone_bytes(vv))))
 //@end
 
@@ -177,6 +202,60 @@ impl<L: KVVStore> CloudKVVStore<L> {
         r.is_ok() ==> log_view(*final(self))->Some_0.dom().contains(key@)
             && log_view(*final(self))->Some_0[key@].0 == next_local_version(old(self).local.kvv_view(), key@)
             && log_view(*final(self))->Some_0[key@].1@ == Seq::<u8>::empty(),                                           //[C16.cloud.delete-is-a-tombstone]
+//@end
+
+//@fn vls-persist/src/kvv/cloud.rs :: impl<L: KVVStore> KVVStore for CloudKVVStore<L> :: get props=C16
+    requires self.commit_log.val.is_some(),
+    ensures
+        // a transaction reads its own writes by key, otherwise what the local store holds
+        r.is_ok() ==> (match r->Ok_0 {
+            Some(vv) => (if log_view(*self)->Some_0.dom().contains(key@) { vv.0 == log_view(*self)->Some_0[key@].0 && vv.1@ == log_view(*self)->Some_0[key@].1@ }
+                else { self.local.kvv_view().dom().contains(key@) && vv.0 == self.local.kvv_view()[key@].0 && vv.1@ == self.local.kvv_view()[key@].1@ }),
+            None => !log_view(*self)->Some_0.dom().contains(key@) && !self.local.kvv_view().dom().contains(key@) }),     //[C16.cloud.get-reads-own-writes]
+//@sub /let commit_log = self\.commit_log\.val\.as_ref\(\)\.vx_expect\(\);/ => let commit_log = vx_log_ref(&self.commit_log.val);
+//@end
+
+//@fn vls-persist/src/kvv/cloud.rs :: impl<L: KVVStore> KVVStore for CloudKVVStore<L> :: get_version props=C16
+    requires self.commit_log.val.is_some(),
+    ensures
+        r.is_ok() ==> r->Ok_0 == (if log_view(*self)->Some_0.dom().contains(key@) { Some(log_view(*self)->Some_0[key@].0) }
+            else if self.local.kvv_view().dom().contains(key@) { Some(self.local.kvv_view()[key@].0) } else { None }),   //[C16.cloud.get-version-reads-own-writes]
+//@sub /let commit_log = self\.commit_log\.val\.as_ref\(\)\.vx_expect\(\);/ => let commit_log = vx_log_ref(&self.commit_log.val);
+//@end
+
+//@fn vls-persist/src/kvv/cloud.rs :: impl<L: KVVStore> KVVStore for CloudKVVStore<L> :: enter props=C16 optclosures
+//@sigsub /&self/ => &mut self
+    requires old(self).commit_log.val.is_none(),           // entering twice panics (abort)
+        old(self).local.kvv_view().dom().contains(LAST_WRITER_KEY@) ==> old(self).local.kvv_view()[LAST_WRITER_KEY@].0 < u64::MAX,
+    ensures
+        final(self).local.kvv_view() == old(self).local.kvv_view(),                                                      //[C16.cloud.enter-local-untouched]
+        // a transaction starts with exactly one pending mutation: the last-writer record at the version after the stored one
+        r.is_ok() ==> final(self).commit_log.val.is_some() && log_view(*final(self))->Some_0.dom() =~= set![LAST_WRITER_KEY@]
+            && log_view(*final(self))->Some_0[LAST_WRITER_KEY@].0 == next_local_version(old(self).local.kvv_view(), LAST_WRITER_KEY@)
+            && log_view(*final(self))->Some_0[LAST_WRITER_KEY@].1@ == old(self).local.signer_id_spec()@,                 //[C16.cloud.enter-stages-last-writer]
+        r.is_err() ==> final(self).commit_log.val.is_none(),
+//@sub /let mut commit_log = self\.commit_log\.lock\(\)\.vx_expect\(\);/ => 
+//@sub /commit_log\.is_none\(\)/ => self.commit_log.val.is_none()
+//@sub /let mut log = BTreeMap::new\(\);/ => let mut log = VxStrMap::new();
+//@sub /LAST_WRITER_KEY\.to_owned\(\)/ => vx_to_string(LAST_WRITER_KEY)
+//@sub /self\.signer_id\(\)\.to_vec\(\)/ => vx_id_to_vec(self.local.signer_id())
+//@sub /\*commit_log = Some\(log\);/ => self.commit_log.val = Some(log);
+//@end
+
+//@fn vls-persist/src/kvv/cloud.rs :: impl<L: KVVStore> KVVStore for CloudKVVStore<L> :: prepare props=C16
+//@sigsub /&self/ => &mut self
+    requires old(self).commit_log.val.is_some(),
+    ensures
+        final(self).local.kvv_view() == old(self).local.kvv_view(), final(self).commit_log.val.is_some(),
+        // what is reported is exactly the pending mutations (each key once, with its pending version and bytes) and they
+        // stay pending for commit - or nothing at all, and then nothing stays pending, when the last-writer record is alone
+        (mutations_reported(r, log_view(*old(self))->Some_0) && log_view(*final(self)) == log_view(*old(self)))
+        || (r.0@.len() == 0 && log_view(*old(self))->Some_0.dom().len() == 1 && log_view(*old(self))->Some_0.dom().contains(LAST_WRITER_KEY@)
+            && log_view(*final(self))->Some_0 =~= Map::<Seq<char>, (u64, Vec<u8>)>::empty()),                          //[C16.cloud.prepare-reports-exactly-the-pending-mutations]
+//@sub /let commit_log = self\.commit_log\.val\.as_mut\(\)\.vx_expect\(\);/ => 
+//@sub /(?s)let mutations: Vec<_> =\s*commit_log\.iter\(\)\.map\(\|\(k, \(v, vv\)\)\| \(k\.clone\(\), \(\*v, vv\.clone\(\)\)\)\)\.collect\(\);/ => let mutations = vx_log_cloned(vx_log_ref(&self.commit_log.val));
+//@sub /commit_log\.clear\(\);/ => self.commit_log.val.as_mut().vx_expect().clear();
+//@sub /\(mutations\[0\]\.0\) == \(LAST_WRITER_KEY\)/ => vx_str_eq(mutations[0].0.as_str(), LAST_WRITER_KEY)
 //@end
 
 } // impl
